@@ -58,6 +58,29 @@ CLAIMS.update({
    technique='contract-based deductive verification: AST symbolic execution + loop invariant + z3 VCs (smt), cc-sym for remainder bits',
    design='4/C13'),
 })
+CLAIMS.update({
+ 'C06': dict(
+   category='proof',
+   text='Deductive core: the eight mask functions are proved equivalent to ISO Table 10 for ALL i, j >= 0 (z3, 36 residue cases each); '
+        'apply_mask through find_and_apply_best_mask for all 44 versions x 8/4 requested masks with symbolic modules (module inverted iff '
+        'encoding region and condition; function modules untouched; returned pattern is the requested one); candidate selection with eight '
+        'symbolic scores (lowest-numbered minimum / Micro maximum, every candidate masked from the unmasked copy, returned matrix is that candidate); '
+        'Micro score for the four sizes with symbolic modules; N4 for every dark count of every size (1.4M cases, real float statements extracted from the AST); '
+        'evaluate_mask is the sum; _encode glue (evaluation before format/version info). '
+        'N1/N2/N3 loops of mask_scores: deductive tier not built - a labelled BOUNDED differential against the ISO scores (seeded random and planted-pattern matrices, all sizes) stands in and is not counted as proved.',
+   note='Trusted: pyvc + z3, spec/penalty.py, spec/layout.py. Bounded: N1/N2/N3 scoring (evidence.bounded_clauses). Scores assumed < sys.maxsize.',
+   technique='contract-based deductive verification (smt + cc-sym + ground) of masks, selection, N4, Micro score; bounded differential stand-in for the N1-N3 scoring loops',
+   design='4/C06'),
+ 'C11': dict(
+   category='proof',
+   text='Deductive, exhaustive in position: for all 44 sizes matrix_iter_verbose (real get_bit) is executed on a valid symbol whose data/format/version '
+        'modules are symbolic bits; every yielded value equals, as a linear form in the module bit, the ISO type of its position (dark variant iff the module is dark), '
+        'quiet zone and scaling included; matrix_iter yields exactly the module values with a light quiet zone; refusal of bad scale/border. '
+        'One known finding: module (8, size-9) reported as format information. Colour-indexed rendering (PNG/SVG/PPM) and _make_colormap are not covered here.',
+   note='Trusted: pyvc (eager generators), spec/layout.py map, TYPE_* constants by documented name. Scale/border: a few concrete combinations per size (general scale/border arithmetic is C09).',
+   technique='contract-based deductive verification: concrete-control / symbolic-data execution (cc-sym) of the real classifier at every module of every size',
+   design='4/C11'),
+})
 NOT_YET = {
 }
 ALL = ['C%02d' % i for i in range(1, 17)]
